@@ -864,7 +864,7 @@ private theorem wtypes_eq (p : Pkg) : ∀ os : List Obj,
     cases h : wrapKept K o <;> simp [h]
 
 private theorem methodDeps_eq (p : Pkg) (hp : p.path = p.importPath) (m : Method) :
-    methodDeps p m = Spec.methodDeps p m := by
+    methodDeps K p m = Spec.methodDeps p m := by
   unfold methodDeps Spec.methodDeps
   congr 1; funext d; simp [hp]
 
@@ -875,7 +875,7 @@ private theorem typeImports_eq (p : Pkg) (hp : p.path = p.importPath) : ∀ os :
   | o :: os => by
     unfold typeImports
     rw [typeImports_eq p hp os]
-    have hm : methodDeps p = Spec.methodDeps p := funext (methodDeps_eq p hp)
+    have hm : methodDeps K p = Spec.methodDeps p := funext (methodDeps_eq p hp)
     cases h : wrapKept K o <;> simp [h, keptMethods_eq, List.flatMap_cons, hm]
 
 private theorem typKept_eq_spec (o : Obj) : typKept K o = Spec.isType o := by
@@ -959,6 +959,113 @@ theorem genY_eq_spec_partial (p : Pkg) (h : DomAll p) :
         (p.objs.filter Spec.isType).map fun o => (⟨o.name, .typ (Spec.ident K.restricted p o.name)⟩ : Entry) := htyps
     rw [pkg_import_iff_used_partial p hn himp, hv, ht, typeImports_eq p hp, hfilw, hlit, hvals]
     rfl
+
+/-! ### 8. the import block is exactly what the emitted text names -/
+
+/-- the packages whose names occur in the text of the wrapper methods (the qualifiers go/types prints
+    for the parameter and result types of every emitted method — also of methods inherited from an
+    embedded interface of another package, whose types may come from packages the extracted package
+    does not import itself), the extracted package by either of its names left out -/
+def methodQualifiers (p : Pkg) : List String :=
+  (p.objs.filter (wrapKept K)).flatMap fun o => ((methodsOf o.kind).filter (·.exported)).flatMap (Spec.methodDeps p)
+
+/-- every package the emitted text names: those of the wrapper methods, go/constant and go/token when a
+    literal is bound, the extracted package when a binding refers to it, reflect -/
+def usedPkgs (p : Pkg) : List String :=
+  methodQualifiers p ++ (if (genE p).vals.any (fun e => isLit e.form) then ["go/constant", "go/token"] else []) ++
+    (if ((genE p).vals ++ (genE p).typs).any Spec.refersPkg then [p.importPath] else []) ++ ["reflect"]
+
+private theorem litUsed_eq (p : Pkg) : ∀ os : List Obj,
+    litUsed K p os = (valEntries K p os).any (fun e => isLit e.form)
+  | [] => rfl
+  | o :: os => by
+    have ih := litUsed_eq p os
+    unfold litUsed at ih ⊢
+    unfold valEntries
+    cases hf : valForm K p o <;> simp [hf, ih]
+
+private theorem mem_typeImports (p : Pkg) (d : String) : ∀ os : List Obj,
+    d ∈ typeImports K p os ↔ ∃ o ∈ os, wrapKept K o = true ∧ ∃ m ∈ (methodsOf o.kind).filter (·.exported), d ∈ methodDeps K p m
+  | [] => by simp [typeImports]
+  | o :: os => by
+    unfold typeImports
+    rw [List.mem_append, mem_typeImports p d os]
+    cases hk : wrapKept K o <;> simp [hk, keptMethods_eq]
+
+/-- **every qualifier the emitted text uses has its import** — every package: a package named in the
+    signature of an emitted wrapper method (inherited methods included, whether or not the extracted
+    package imports it itself), go/constant and go/token for a literal, the package itself for a binding
+    that names it, reflect -/
+theorem imports_cover_used (p : Pkg) (hn : p.name ≠ "") : ∀ d ∈ usedPkgs p, d ∈ (genE p).imports := by
+  intro d hd
+  simp only [usedPkgs, methodQualifiers, List.mem_append, List.mem_flatMap, List.mem_filter] at hd
+  simp only [genE, genY, List.mem_append]
+  rcases hd with ((hd | hd) | hd) | hd
+  · obtain ⟨o, ⟨ho, hk⟩, m, hm, hdm⟩ := hd
+    left; left; left
+    refine (mem_typeImports p d p.objs).2 ⟨o, ho, hk, m, List.mem_filter.2 hm, ?_⟩
+    unfold Spec.methodDeps at hdm; unfold methodDeps
+    obtain ⟨h1, h2⟩ := List.mem_filter.1 hdm
+    refine List.mem_filter.2 ⟨h1, ?_⟩
+    simp only [K_qualifyForeign, if_true]
+    simp only [Bool.and_eq_true] at h2; exact h2.1
+  · left; left; right
+    rw [litUsed_eq]; exact hd
+  · left; right
+    have huse : usePkg K p (valEntries K p p.objs) (typEntries K p p.objs) = true := by
+      simp only [usePkg, K_importIfUsed, if_true]
+      split at hd
+      · rename_i hany
+        simp only [genE, genY, List.any_append, Bool.or_eq_true] at hany
+        rcases hany with hv | ht
+        · rw [vals_any_eq p hn, hv]; simp
+        · cases hty : typEntries K p p.objs with
+          | nil => rw [hty] at ht; simp at ht
+          | cons e es => simp
+      · simp at hd
+    rw [huse]
+    split at hd
+    · simpa using hd
+    · simp at hd
+  · right; exact hd
+
+/-- **the import block is exactly the set of packages the emitted text names** (every import is used
+    and everything used is imported) — on the domain: the package is named by its import path
+    (F18-13) and has no sandboxed type as its only reference (`DomImport`) -/
+theorem imports_exactly_used_partial (p : Pkg) (hp : p.path = p.importPath) (hn : p.name ≠ "") (h : DomImport p) :
+    ∀ d, d ∈ (genE p).imports ↔ d ∈ usedPkgs p := by
+  intro d
+  refine ⟨?_, imports_cover_used p hn d⟩
+  intro hd
+  rw [pkg_import_iff_used_partial p hn h] at hd
+  simp only [List.mem_append] at hd
+  simp only [usedPkgs, methodQualifiers, List.mem_append]
+  rcases hd with ((hd | hd) | hd) | hd
+  · left; left; left
+    rw [typeImports_eq p hp] at hd; exact hd
+  · left; left; right
+    rw [litUsed_eq] at hd; exact hd
+  · left; right; exact hd
+  · right; exact hd
+
+/-- a package that imports only `x.y/mid`, whose interface `S` embeds `mid.Taker`: the inherited method
+    `Take() (far.Conn, *far.Buf)` mentions the package `x.y/far`, which `p` does not import -/
+def pkgInherited : Pkg :=
+  { importPath := "x.y/p", path := "x.y/p", name := "p", dest := "lib", minor := 23, tags := [],
+    directImports := ["x.y/mid"],
+    objs := [⟨"S", true, .iface false 1 true
+      [⟨"ID", true, false, [], [⟨"", "int".toList, none, [], false⟩]⟩,
+       ⟨"Take", true, false, [⟨"m", "mid.Mode".toList, none, ["x.y/mid"], false⟩],
+          [⟨"", "far.Conn".toList, none, ["x.y/far"], false⟩, ⟨"", "*far.Buf".toList, none, ["x.y/far"], false⟩]⟩]⟩] }
+
+/-- non-vacuity: the package of an inherited method's types is imported although the extracted package
+    does not import it; with the `qualify` rule "only what `imports` already has" (seed C18-3) the model
+    drops it while the text still names `far.` -/
+theorem inherited_method_imports :
+    (genE pkgInherited).imports = ["x.y/mid", "x.y/far", "x.y/far", "x.y/p", "reflect"] ∧
+    usedPkgs pkgInherited = ["x.y/mid", "x.y/far", "x.y/far", "x.y/p", "reflect"] ∧
+    (genY { K with qualifyForeign := false, qualifyDirectOnly := true } pkgInherited).imports = ["x.y/mid", "x.y/p", "reflect"] := by
+  decide
 
 /-- non-vacuity of the domain: blank / `W` / clashing parameter names, a `String() (string, error)`
     method, `interface{ any }`, a constraint interface with a method, a third-party package called log
